@@ -1781,9 +1781,12 @@ impl Vm {
                 .range_cache
                 .iter()
                 .enumerate()
-                .max_by(|first, second| first.1 .1.elapsed().cmp(&second.1 .1.elapsed()))
+                // The oldest entry is the one created first. (Comparing elapsed() values, which are
+                // taken at two different instants, could pick a newer entry when two ranges were
+                // created in quick succession.)
+                .min_by_key(|entry| entry.1 .1)
                 .map(|e| e.0)
-                .expect("Expect to find max given non-empty Vec.");
+                .expect("Expect to find min given non-empty Vec.");
 
             self.range_cache[stale_pos] = (range, time::Instant::now());
         } else {
